@@ -24,8 +24,7 @@ driver uses `RExpr.evalFloat`), the assembly functions (`iid`, `slCode`, `unifor
 `env4 x a b c` is the environment of one component (`var 0 = x`, parameters `var 1..3`).
 
 Sections: 1 independence (product of component densities) · 2 per-family documented density and
-normalisation · 3 code-faithful negative results (SmoothedLaplace scalar scale, Uniform one-element
-arrays, MHN getters, Cauchy cdf) · 4 cdf combination rule · 5 Gaussian parameterisations ·
+normalisation · 3 code-faithful negative results (SmoothedLaplace scalar scale, MHN getters, Cauchy cdf) · 4 cdf combination rule · 5 Gaussian parameterisations ·
 6 Markov random fields · 7 un-normalised vs normalised.
 -/
 open Finset MeasureTheory ProbabilityTheory Matrix
@@ -340,21 +339,34 @@ theorem sl_scalar_scale_counterexample :
 
 
 /-! Uniform -/
-theorem uniformVolCode_scalar_eq_doc (dim : ℕ) (l h : ℚ) :
-    uniformVolCode dim true [l] [h] = uniformVolDoc dim [l] [h] := by
-  simp only [uniformVolCode, uniformVolDoc, if_true, bc, List.length_singleton, List.getD_cons_zero]
+/-- **Uniform, bounds of length one (Python scalars or one-element arrays), every dimension:** the volume
+    the code uses, `(high-low)^dim`, is the documented volume of the box. -/
+theorem uniformVolCode_short_eq_doc (dim : ℕ) (lo hi : List ℚ) (h : max lo.length hi.length ≤ 1) :
+    uniformVolCode dim lo hi = uniformVolDoc dim lo hi := by
+  have hlo : lo.length ≤ 1 := le_trans (le_max_left _ _) h
+  have hhi : hi.length ≤ 1 := le_trans (le_max_right _ _) h
+  simp only [uniformVolCode, uniformVolDoc, if_pos h]
   induction dim with
   | zero => rfl
-  | succ k ih => rw [List.range_succ, List.foldl_append, ← ih]; rfl
+  | succ k ih =>
+    rw [List.range_succ, List.foldl_append, ← ih]
+    simp only [List.foldl_cons, List.foldl_nil, powRat, bc_short lo hlo k, bc_short hi hhi k]
+
+theorem uniformVolCode_scalar_eq_doc (dim : ℕ) (l h : ℚ) :
+    uniformVolCode dim [l] [h] = uniformVolDoc dim [l] [h] :=
+  uniformVolCode_short_eq_doc dim [l] [h] (by simp)
 
 theorem uniformVolCode_array_eq_doc (dim : ℕ) (lo hi : List ℚ) (h : max lo.length hi.length = dim) :
-    uniformVolCode dim false lo hi = uniformVolDoc dim lo hi := by
-  simp [uniformVolCode, uniformVolDoc, h]
+    uniformVolCode dim lo hi = uniformVolDoc dim lo hi := by
+  by_cases h1 : max lo.length hi.length ≤ 1
+  · exact uniformVolCode_short_eq_doc dim lo hi h1
+  · subst h
+    simp only [uniformVolCode, uniformVolDoc, if_neg h1]
 
-theorem uniform_len1_array_counterexample :
-    uniformVolCode 2 false [0] [2] = 2 ∧ uniformVolDoc 2 [0] [2] = 4 := by
+/-- the former one-element-array defect is gone: volume `(2-0)^2 = 4` in dimension 2 -/
+theorem uniform_len1_array_volume : uniformVolCode 2 [0] [2] = 4 ∧ uniformVolDoc 2 [0] [2] = 4 := by
   constructor
-  · simp [uniformVolCode, bc, List.range_succ]
+  · simp [uniformVolCode, bc, powRat]; norm_num
   · simp [uniformVolDoc, bc, List.range_succ]; norm_num
 
 theorem uniformVolDoc_eq_prod (dim : ℕ) (lo hi : List ℚ) :
@@ -383,6 +395,25 @@ theorem cdf_product_rule {ι : Type} [Fintype ι] (μ : ι → Measure ℝ) [∀
 theorem cdfCombine_product_eq_prod (n : ℕ) (F : ℕ → ℝ) :
     cdfCombine .product n F = ∏ j ∈ range n, F j := by
   simp [cdfCombine, prodTo_eq_prod]
+
+/-- **Beta cdf at and beyond the right end of the support is 1** (what scipy returns for such a component) -/
+theorem beta_cdf_eq_one_of_one_le (a b x : ℝ) (ha : 0 < a) (hb : 0 < b) (hx : 1 ≤ x) :
+    betaMeasure a b (Set.Iic x) = 1 := by
+  have := isProbabilityMeasureBeta ha hb
+  have h0 : betaMeasure a b (Set.Iic x)ᶜ = 0 := by
+    rw [Set.compl_Iic, betaMeasure, withDensity_apply _ measurableSet_Ioi]
+    exact setLIntegral_eq_zero measurableSet_Ioi (fun y hy => betaPDF_eq_zero_of_one_le (le_trans hx (le_of_lt hy)))
+  exact (prob_compl_eq_zero_iff measurableSet_Iic).mp h0
+
+/-- **Beta cdf rule at full strength:** components with `x_j ≥ 1` carry the factor 1, so the product the
+    code forms over all components is the product over the components inside `(0,1)`. -/
+theorem beta_cdf_product_drops_ones (n : ℕ) (x F : ℕ → ℝ) (h1 : ∀ j, j < n → 1 ≤ x j → F j = 1) :
+    cdfCombine .product n F = ∏ j ∈ (range n).filter (fun j => x j < 1), F j := by
+  rw [show cdfCombine .product n F = prodTo n F from rfl, prodTo_eq_prod, Finset.prod_filter]
+  refine Finset.prod_congr rfl fun j hj => ?_
+  split_ifs with h
+  · rfl
+  · exact h1 j (Finset.mem_range.mp hj) (not_lt.mp h)
 
 theorem cauchy_cdf_sum_counterexample :
     cdfRule "cauchy" = some .sum ∧ cdfCombine .sum 2 (fun _ => (1 / 2 : ℚ)) = 1
@@ -628,7 +659,7 @@ example : slCode eval 0 [1, 2] [0] [1, 2] [1 / 2] = slDoc eval 0 [1, 2] [0] [1, 
   sl_code_eq_doc_partial _ _ _ _ (by simp [bcLen])
 example : laplaceCode eval 0 2 [1, 2] [0] [3] = iid eval 0 (laplaceLogpdf (var 0) (var 1) (var 2)) [1, 2] [[0], [3]] :=
   laplace_code_eq_iid 2 _ _ 3 (by simp [bcLen]) (by simp [bcLen])
-example : uniformVolCode 3 true [0] [2] = 8 := by
+example : uniformVolCode 3 [0] [2] = 8 := by
   rw [uniformVolCode_scalar_eq_doc]; simp [uniformVolDoc, bc, List.range_succ]; norm_num
 example : ∫ _x in (0:ℝ)..2, Real.exp (eval (fun _ => 2 - 0) (uniformLogpdf (var 0))) = 1 :=
   uniform_integral_eq_one 0 2 (by norm_num)
@@ -638,5 +669,9 @@ example := gmrf_logpdf_eq_gauss (fun _ => 0) 3 2 4 (11 / 2) (by norm_num) (by no
 example : (!![2, 0; 0, 4] : Matrix (Fin 2) (Fin 2) ℚ) * !![1 / 2, 0; 0, 1 / 4] = 1 := by
   ext i j; fin_cases i <;> fin_cases j <;> simp [Matrix.mul_apply, Fin.sum_univ_two]
 example := lognormal_exp_logpdf_1d (fun _ => 0) 1 0 2 (by norm_num) (by norm_num) 2 0 (by norm_num) (by simp)
+
+example := beta_cdf_eq_one_of_one_le 2 3 (3 / 2) (by norm_num) (by norm_num) (by norm_num)
+example : uniformVolCode 3 [0, 0, 0] [2, 2, 2] = uniformVolDoc 3 [0, 0, 0] [2, 2, 2] :=
+  uniformVolCode_array_eq_doc 3 _ _ (by simp)
 
 end CuqiVerif.C04
